@@ -44,6 +44,8 @@ type EvalEnv struct {
 	Old     *State
 	Sigs    map[string]SpecSig
 	InOld   bool
+	LastFrame []Term // per-region conjuncts of the most recent frame_only evaluation
+	LastFrameRegions []string
 }
 
 func (e *EvalEnv) state() *State {
@@ -270,6 +272,15 @@ func (e *EvalEnv) ident(name string) (Val, error) {
 		if rn == name && i < len(e.Results) {
 			return e.Results[i], nil
 		}
+	}
+	// SSA register of the enclosing frame (used by synthesised invariants): __ssa_t5
+	if e.Fr != nil && strings.HasPrefix(name, "__ssa_") {
+		for v, val := range e.Fr.Env {
+			if v.Name() == name[6:] && v.Parent() == e.Fr.Fn {
+				return val, nil
+			}
+		}
+		return nil, fmt.Errorf("no SSA register %s in %s", name[6:], e.Fr.Fn.Name())
 	}
 	// source-level local variable of the enclosing frame
 	if e.Fr != nil {
@@ -1000,6 +1011,25 @@ func (e *EvalEnv) call(x *ast.CallExpr) (Val, error) {
 			bvCmp("bvule", bvBin("bvadd", SlOff(at.T), SlCap(at.T)), SlOff(bt.T)),
 			bvCmp("bvule", bvBin("bvadd", SlOff(bt.T), SlCap(bt.T)), SlOff(at.T)))
 		return TV{T: d, Typ: types.Typ[types.Bool]}, nil
+	case "sameblock":
+		// sameblock(s, t): the two slices share their backing array
+		if len(x.Args) != 2 {
+			return nil, fmt.Errorf("sameblock(s, t)")
+		}
+		av, err := e.Eval(x.Args[0])
+		if err != nil {
+			return nil, err
+		}
+		bv, err := e.Eval(x.Args[1])
+		if err != nil {
+			return nil, err
+		}
+		at, ok1 := av.(TV)
+		bt, ok2 := bv.(TV)
+		if !ok1 || !ok2 || at.T.Sort != SSlice || bt.T.Sort != SSlice {
+			return nil, fmt.Errorf("sameblock needs two slices")
+		}
+		return TV{T: Eq(SlBase(at.T), SlBase(bt.T)), Typ: types.Typ[types.Bool]}, nil
 	case "frame_only":
 		// frame_only(loc1, loc2, ...): every heap location that existed before the call, other than the listed
 		// ones, holds its old value (whole-heap frame condition; the listed locations are evaluated in the pre-state)
@@ -1026,7 +1056,8 @@ func (e *EvalEnv) call(x *ast.CallExpr) (Val, error) {
 					r, hs := e.X.elemRegion(elem)
 					hNew := e.X.heapGet(e.St, r, hs)
 					hExp := e.X.heapGet(expected, r, hs)
-					e.X.heapSet(expected, r, Store(hExp, SlBase(stv.T), Select(hNew, SlBase(stv.T))))
+					// (a nil slice has no backing array: nothing may change)
+					e.X.heapSet(expected, r, Ite(Eq(SlBase(stv.T), BVInt(0, 32)), hExp, Store(hExp, SlBase(stv.T), Select(hNew, SlBase(stv.T)))))
 					continue
 				}
 			}
@@ -1045,19 +1076,23 @@ func (e *EvalEnv) call(x *ast.CallExpr) (Val, error) {
 				return nil, err
 			}
 		}
+		// every heap region the execution ever mentions (a second pass is run when regions were first mentioned
+		// after a frame condition had already been evaluated, so that assumed and checked frames range over the same set)
 		regions := map[string]bool{}
-		for r := range e.St.Heap {
+		for r := range e.X.regionSort {
 			regions[r] = true
 		}
-		for r := range expected.Heap {
-			regions[r] = true
+		if e.X.frameEvals == 0 || len(e.X.regionSort) < e.X.minRegionsAtFrame {
+			e.X.minRegionsAtFrame = len(e.X.regionSort)
 		}
+		e.X.frameEvals++
 		var names []string
 		for r := range regions {
 			names = append(names, r)
 		}
 		sort.Strings(names)
 		var conj []Term
+		var conjRegions []string
 		allocated := e.St.Brk.S != e.Old.Brk.S
 		for _, r := range names {
 			srt := e.X.regionSort[r]
@@ -1066,6 +1101,7 @@ func (e *EvalEnv) call(x *ast.CallExpr) (Val, error) {
 			if cur.S == exp.S {
 				continue
 			}
+			conjRegions = append(conjRegions, r)
 			if !allocated {
 				conj = append(conj, Eq(cur, exp))
 				continue
@@ -1073,6 +1109,7 @@ func (e *EvalEnv) call(x *ast.CallExpr) (Val, error) {
 			e.X.C.usesQuant = true
 			conj = append(conj, Raw(SBool, fmt.Sprintf("(forall ((r!f (_ BitVec 32))) (=> (bvult r!f %s) (= (select %s r!f) (select %s r!f))))", e.Old.Brk.S, cur.S, exp.S)))
 		}
+		e.LastFrame, e.LastFrameRegions = conj, conjRegions
 		return TV{T: And(conj...), Typ: types.Typ[types.Bool]}, nil
 	case "fresh":
 		// fresh(s): slice/pointer/map allocated during the call
